@@ -175,9 +175,13 @@ namespace AIToolbox::Factored {
 
             if (sequential_sorted_contains(maxBasis.tag, minBasis.tag)) {
                 if (retvalBigger)
-                    plusEqualSubset(space, curBasis, basis);
-                else
-                    curBasis = plusSubset(space, basis, curBasis);
+                    minusEqualSubset(space, curBasis, basis);
+                else {
+                    // curBasis - basis, over the (bigger) domain of basis.
+                    BasisFunction negated = basis;
+                    negated.values *= -1.0;
+                    curBasis = plusSubset(space, std::move(negated), curBasis);
+                }
                 merged = true;
 
                 // If the basis is now useless, we remove it.
@@ -187,8 +191,10 @@ namespace AIToolbox::Factored {
                 break;
             }
         }
-        if (!merged)
+        if (!merged) {
             retval.bases.push_back(basis);
+            retval.bases.back().values *= -1.0;
+        }
 
         return retval;
     }
